@@ -1088,6 +1088,19 @@ impl<'a> Evaluator<'a> {
                         }
                         "is_empty" => return Ok(Val::Bool(items.is_empty())),
                         "first" => return Ok(items.first().cloned().map(Val::some).unwrap_or(Val::none())),
+                        // collect::<Result<Vec<_>, _>>() / collect::<Option<Vec<_>>>(): the first Err / None wins
+                        "collect" if mc.turbofish.as_ref().map(|t| { let t = tok(t); t.starts_with("::<Result<") || t.starts_with("::<Option<") }).unwrap_or(false) => {
+                            let is_res = tok(mc.turbofish.as_ref().unwrap()).starts_with("::<Result<");
+                            let mut out = vec![];
+                            for it in items {
+                                match it {
+                                    Val::Ctor(n, p, _) if (is_res && n == "Ok") || (!is_res && n == "Some") => out.push(p.first().cloned().unwrap_or(Val::Unit)),
+                                    Val::Ctor(n, _, _) if (is_res && n == "Err") || (!is_res && n == "None") => return Ok(it.clone()),
+                                    o => return Err(format!("collect into Result/Option over {}", o.show())),
+                                }
+                            }
+                            return Ok(Val::Ctor(if is_res { "Ok" } else { "Some" }.into(), vec![Val::List(out)], BTreeMap::new()));
+                        }
                         "collect" | "peekable" | "by_ref" | "into_values" | "values" | "chars_list" => return Ok(recv.clone()),
                         "enumerate" => {
                             return Ok(Val::List(items.iter().enumerate().map(|(i, v)| Val::Tuple(vec![Val::int(i as i128), v.clone()])).collect()))
